@@ -774,6 +774,19 @@ func AliasKeyAgreement(p *load.Program, rel string) *report.RuleResult {
 		if q.table != "" || q.key != "lower" {
 			bad = append(bad, fmt.Sprintf("qualified names must use the class/namespace table with a lower-cased first segment; found table %q, %s key", q.table, q.key))
 		}
+		// the kind keyword reaches AddAlias as it is spelt in the source (`use CONST …`, `use Function …`): the
+		// same table and the same key normalisation for every spelling (seed C14-10)
+		if at != "" {
+			for _, spelt := range []string{strings.ToUpper(at), strings.ToUpper(at[:1]) + at[1:]} {
+				res.Count("spellings", 1)
+				ws, es := eval(add, spelt, false)
+				if es != "" {
+					bad = append(bad, fmt.Sprintf("AddAlias cannot be evaluated for the kind keyword spelt %q: %s", spelt, es))
+				} else if ws != w {
+					bad = append(bad, fmt.Sprintf("AddAlias stores an alias declared with the keyword spelt %q in table %q under the %s key, but one declared with %q in table %q under the %s key: keywords are case-insensitive", spelt, ws.table, ws.key, at, w.table, w.key))
+				}
+			}
+		}
 		if len(bad) == 0 {
 			res.OK(key, p.Pos(look.Pos()), "Namespace", fmt.Sprintf("stored and looked up in table %q with the %s key; qualified names use the class table, lower-cased", w.table, w.key))
 		} else {
